@@ -96,6 +96,15 @@ class Oracle:
             if n in self.calls:
                 h = self.calls[n]
                 return h(t, it) if callable(h) else h
+            # operators of any iterator type (containers of the standard library, plain pointers are handled by the
+            # interpreter itself) applied to an abstract position
+            if t[0] == "opcall" and t[3] in ("!=", "==", "*", "->", "++") and t[4]:
+                try:
+                    v0 = it.ev(t[4][0])
+                except Unknown:
+                    v0 = None
+                if _pos(v0) is not None:
+                    return {"!=": _it_cmp(True), "==": _it_cmp(False), "*": _it_deref, "->": _it_arrow, "++": _it_inc}[t[3]](t, it)
             r = self._inline(t, it)
             if r is not None:
                 return r[1]
@@ -163,11 +172,12 @@ def _it_inc(t, it):
     v = it.ev(a)
     if _pos(v) == "end":
         raise Unknown("increment of the end iterator")
+    nv = ("iter", "next" if _pos(v) != "next" else "skipped")
     try:
-        it.store(it.lval(a), ("iter", "next"))
+        it.store(it.lval(a), nv)
     except Unknown:
         pass
-    return ("iter", "next")
+    return nv
 
 
 def _it_cmp(neg):
@@ -179,7 +189,7 @@ def _it_cmp(neg):
         # plumbing names of a range-for (__begin1 / __end1) stand for "at an element" / "at the end"
         na = "end" if pa == "end" or pa.startswith("__end") else "elem"
         nb = "end" if pb == "end" or pb.startswith("__end") else "elem"
-        if na == "elem" and nb == "elem" and pa != pb:
+        if na == "elem" and nb == "elem" and pa != pb and not {pa, pb} <= {"cur", "next", "skipped"}:
             raise Unknown("comparison of two element positions")
         eq = (na == nb)
         return (not eq) if neg else eq
@@ -291,6 +301,8 @@ class LoopModel:
         it.env.update(self.env_for(at, it))
         it.env.update(env or {})
         res = it.run(start=self.entry, stop_blocks={self.entry}, max_steps=max_steps)
+        if res[0] == "stop" and any(it.env.get(v) == ("iter", "skipped") for v in self.moving):
+            res = ("skips an element", None)      # the position moved on twice within one iteration
         return res, it
 
 
